@@ -22,10 +22,12 @@ def native_plan(tier):
     ter_dom = 'every sequence of <= %d events {derive (k, a, b) over 2 keys x 3 items, end of iteration, end of stratum} + a closing stratum end, ternary provider'
     dir_dom = 'the union-find alone (index_insert = EqRel::add on `combined`): every history of <= 5 add(a, b) over the 30 ordered pairs a != b of 6 items; contains_key on all 36 pairs, the [0] lookup of every element and count_exact after every add'
     direct = ('eqrel_direct_le5', ';'.join(['0-30'] * 5), dir_dom)
+    ter3_dom = ter_dom.replace('2 keys', '3 keys')
     if tier == 'thorough':
         return [('eqrel_direct_le6', ';'.join(['0-30'] * 6), dir_dom.replace('<= 5', '<= 6')), ('eqrel_protocol_le6', ';'.join(['0-18'] * 6), bin_dom % 6),
-                ('eqrel_ternary_protocol_le6', ';'.join(['0-20'] * 6), ter_dom % 6)]
-    return [direct, ('eqrel_protocol_le4', ';'.join(['0-18'] * 4), bin_dom % 4), ('eqrel_ternary_protocol_le4', ';'.join(['0-20'] * 4), ter_dom % 4)]
+                ('eqrel_ternary_protocol_le6', ';'.join(['0-20'] * 6), ter_dom % 6), ('eqrel_ternary_protocol_k3_le5', ';'.join(['0-29'] * 5), ter3_dom % 5)]
+    return [direct, ('eqrel_protocol_le4', ';'.join(['0-18'] * 4), bin_dom % 4), ('eqrel_ternary_protocol_le4', ';'.join(['0-20'] * 4), ter_dom % 4),
+            ('eqrel_ternary_protocol_k3_le4', ';'.join(['0-29'] * 4), ter3_dom % 4)]
 
 
 def run(pid, tier):
@@ -46,7 +48,7 @@ def run(pid, tier):
                 if p[0].startswith('eqrel_direct'):
                     return p, kani.native_exhaust_sharded(binary, p[0], p[1], shards=10, timeout=to)
                 return p, kani.native_exhaust(binary, p[0], p[1], timeout=to)
-            with ThreadPoolExecutor(max_workers=3 if tier == 'quick' else 1) as ex2:
+            with ThreadPoolExecutor(max_workers=4 if tier == 'quick' else 1) as ex2:
                 for (h, alpha, dom), r in ex2.map(one, native_plan(tier)):
                     native[h] = dict(r, domain=dom)
                     for f in r['failures']:
